@@ -144,6 +144,10 @@ func (mr *msgReader) putFlateReader() {
 	if mr.flateReader != nil {
 		putFlateReader(mr.flateReader)
 		mr.flateReader = nil
+		// The flate reader now belongs to the pool (and soon to another
+		// connection): the limit reader must not keep reading through it if
+		// the caller reads again after the end of the message.
+		mr.limitReader.r = mr.readFunc
 	}
 }
 
